@@ -447,3 +447,116 @@ func c17NoFailureAsData(c *Ctx, r *Report) {
 	r.OK("R17.18", "executions of statement blocks in the interpreter", "", fmt.Sprintf("%d execution sites examined", n))
 	r.Floor("R17.18", "executions of statement blocks", n, 20)
 }
+
+// R17.19: a record that comes with an error is kept only for the one error
+// the reader handles itself. (*csv.Reader).Read returns the fields read so
+// far together with every parse error; the Miller reader checks field counts
+// itself and therefore lets ErrFieldCount pass. Decided per path: the record
+// result of Read is used only where the error is nil or errors.Is(err,
+// ErrFieldCount) holds.
+func c17RecordWithError(c *Ctx, r *Report) {
+	r.Rule("R17.19", "a record that comes with an error is kept only for the error the reader handles itself: on every path from a call of the CSV library's Reader.Read to a use of its record result, the error result has been found nil or errors.Is(err, ErrFieldCount) true — the library hands back the fields read so far along with a bare-quote or open-quote error, and keeping them loses the rest of the row silently")
+	n := 0
+	for _, fn := range c.ModuleFunctions() {
+		if fn.Pkg == nil || fn.Blocks == nil || !strings.HasSuffix(fn.Pkg.Pkg.Path(), "/pkg/input") {
+			continue
+		}
+		k := 0
+		for _, b := range fn.Blocks {
+			for _, in := range b.Instrs {
+				call, ok := in.(*ssa.Call)
+				if !ok || !strings.HasSuffix(CalleeName(&call.Call), "pkg/go-csv.Reader.Read") || call.Referrers() == nil {
+					continue
+				}
+				var rec, errv ssa.Value
+				for _, ref := range *call.Referrers() {
+					if ex, ok := ref.(*ssa.Extract); ok {
+						if ex.Index == 0 {
+							rec = ex
+						} else {
+							errv = ex
+						}
+					}
+				}
+				if rec == nil || errv == nil {
+					continue
+				}
+				n++
+				k++
+				key := fmt.Sprintf("%s: record of Reader.Read #%d", SSAName(fn), k)
+				bad := token.NoPos
+				pr := &PathRule{Fn: fn, Init: Facts{}}
+				pr.Transfer = func(f Facts, in2 ssa.Instruction, deferred bool) []Facts {
+					if in2 == ssa.Instruction(call) {
+						return []Facts{{"live": true}}
+					}
+					if !f.Has("live") || f.Has("ok") {
+						return nil
+					}
+					uses := false
+					for _, op := range in2.Operands(nil) {
+						if *op == rec {
+							uses = true
+						}
+					}
+					if !uses {
+						return nil
+					}
+					if bo, ok := in2.(*ssa.BinOp); ok && (bo.Op == token.EQL || bo.Op == token.NEQ) {
+						return nil // a nil test of the record
+					}
+					if _, ok := in2.(*ssa.DebugRef); ok {
+						return nil
+					}
+					if bad == token.NoPos {
+						bad = in2.Pos()
+						if bad == token.NoPos {
+							bad = call.Pos()
+						}
+					}
+					return nil
+				}
+				pr.Branch = func(f Facts, cond ssa.Value, pol bool, iff *ssa.If) (Facts, bool) {
+					if !f.Has("live") || f.Has("ok") {
+						return f, true
+					}
+					cond, pol = stripNot(cond, pol)
+					switch x := cond.(type) {
+					case *ssa.BinOp:
+						if (x.X == errv || x.Y == errv) && isNilConst(x.X, x.Y) {
+							if (x.Op == token.EQL && pol) || (x.Op == token.NEQ && !pol) {
+								return f.With("ok"), true
+							}
+						}
+					case *ssa.Call:
+						if CalleeName(&x.Call) == "errors.Is" && len(x.Call.Args) == 2 && x.Call.Args[0] == errv && pol {
+							if ld, ok := x.Call.Args[1].(*ssa.UnOp); ok {
+								if g, ok := ld.X.(*ssa.Global); ok && g.Name() == "ErrFieldCount" {
+									return f.With("ok"), true
+								}
+							}
+						}
+					}
+					return f, true
+				}
+				pr.Run()
+				if pr.Overflow {
+					r.Undecided("R17.19", key, c.Rel(call.Pos()), "too many path states")
+					continue
+				}
+				r.Check(bad == token.NoPos, "R17.19", key, c.Rel(call.Pos()), "used only with a nil error or the field-count error",
+					fmt.Sprintf("%s uses the record returned by the CSV library's Read at %s on a path where the error returned with it is neither nil nor the field-count error: the fields read before a malformed quote are kept and the rest of the row is lost with no message", SSAName(fn), c.Rel(bad)))
+			}
+		}
+	}
+	r.Floor("R17.19", "calls of the CSV library's Reader.Read in pkg/input", n, 1)
+}
+
+func isNilConst(a, b ssa.Value) bool {
+	for _, v := range []ssa.Value{a, b} {
+		if k, ok := v.(*ssa.Const); ok && k.IsNil() {
+			return true
+		}
+	}
+	return false
+}
